@@ -53,7 +53,7 @@ class Executor(ExprMixin, ContainerMixin, CallMixin, StmtMixin, ObjectMixin):
             suffix = f"/{k + 1}of{len(parts)}" if len(parts) > 1 else ""
             self.obligations.append(Obligation(f"{self.qual}[{self.variant}]#{nm}{suffix}", list(p.conds), g1, tuple(props if props is not None else self.contract.props), self.qual, kind))
 
-    def split_goal(self, goal, limit=40):
+    def split_goal(self, goal, limit=400):
         """Top-level conjunctions are discharged conjunct by conjunct (smaller queries,
         and E-matching relevancy does not hide the terms of the other conjuncts)."""
         out = []
